@@ -468,6 +468,9 @@ pub enum COp {
 	/// one link of a payment the recipient holds is force-closed (by B or by its peer), `blocks` blocks are
 	/// mined, then the recipient claims (or keeps waiting)
 	CloseThenClaim { pay: u16, downstream: bool, by_b: bool, blocks: u8, claim: bool },
+	/// from now on B's persister also answers InProgress to chain-sync persists of channels in asynchronous mode
+	/// (legal: the contract asks for no completion call for them; the write is just not durable yet)
+	ChainSyncAsyncB,
 }
 
 #[derive(Clone, Debug, Serialize, Deserialize)]
@@ -664,6 +667,10 @@ pub fn apply_c02(sim: &mut Sim, spec: &WorldSpec, op: &COp) -> &'static str {
 			}
 			sim.complete_all_updates(B);
 			"complete-all"
+		},
+		COp::ChainSyncAsyncB => {
+			sim.w.persisters[B].state.lock().unwrap().async_chain_sync = true;
+			"chain-sync-async"
 		},
 		COp::FlushDeferredB => {
 			if !spec.deferred {
@@ -1309,6 +1316,26 @@ impl FwdOracle {
 		self.b_restarts.iter().any(|(rs, ids)| rs > s_b && ids.iter().any(|(c, used)| *c == ci && inflight.iter().any(|id| id > used)))
 	}
 
+	/// Money-loss symptoms on a history in which one of B's channels was closed by B's own commitment, broadcast
+	/// while its monitor update was in flight, and B then restarted from an older image of that monitor: the
+	/// monitor cannot act on a commitment it does not know (listed root cause, see C09
+	/// `broadcast-before-durable/holder-commitment`). Such failures get the suffix below so that they are matched
+	/// by their own known-finding entries and never hide the same symptom on a history without that condition.
+	pub fn qualify_lost_commitment(&self, sim: &Sim, mut f: Failure) -> Failure {
+		const SYMPTOMS: &[&str] = &[
+			"claim-follows-knowledge/onchain-timeout",
+			"claim-follows-knowledge/onchain-unclaimed",
+			"claim-follows-knowledge/onchain-missing",
+			"failed-upstream-while-downstream-claimable",
+			"failed-upstream-with-preimage",
+		];
+		const SUFFIX: &str = "/own-commitment-unknown-to-monitor-after-restart";
+		if SYMPTOMS.contains(&f.key.as_str()) && b_chans(sim).into_iter().any(|ci| self.own_commitment_lost_after_restart(sim, ci)) {
+			f.key = format!("{}{}", f.key, SUFFIX);
+		}
+		f
+	}
+
 	fn on_mined_tx(&mut self, _sim: &Sim, at: u64, tx: &Transaction, _height: u32) {
 		let txid = tx.compute_txid();
 		// a spend carrying a preimage of a forwarded payment
@@ -1497,12 +1524,11 @@ impl FwdOracle {
 					// listed finding, other symptom of the same root cause as the ledger key: the downstream channel was
 					// closed by B's own commitment, broadcast while monitor updates were in flight, and B then restarted
 					// from a monitor image that does not know that commitment: it cannot see the preimage spend
-					let lost = p.down.as_ref().map(|d| self.own_commitment_lost_after_restart(sim, d.chan)).unwrap_or(false);
 					return Err(fail(
 						"failed-upstream-with-preimage",
 						format!("B sent update_fail_htlc upstream (chan {} id {}) at step {} although it had learned the preimage from downstream ({}) at step {}", chan, id, at, how, t),
 					)
-					.with_key(if lost && how == "chain" { "failed-upstream-with-preimage/own-commitment-unknown-to-monitor-after-restart" } else { "failed-upstream-with-preimage" }));
+					.with_key("failed-upstream-with-preimage"));
 				}
 				let Some(d) = &p.down else {
 					if first {
